@@ -6,6 +6,7 @@ require (
 	github.com/Masterminds/semver v1.5.0
 	github.com/nyaruka/gocommon v1.59.3
 	github.com/nyaruka/goflow v0.0.0
+	github.com/shopspring/decimal v1.4.0
 )
 
 require (
@@ -23,7 +24,6 @@ require (
 	github.com/leodido/go-urn v1.4.0 // indirect
 	github.com/nyaruka/null/v2 v2.0.3 // indirect
 	github.com/nyaruka/phonenumbers v1.4.3 // indirect
-	github.com/shopspring/decimal v1.4.0 // indirect
 	golang.org/x/crypto v0.29.0 // indirect
 	golang.org/x/exp v0.0.0-20241108190413-2d47ceb2692f // indirect
 	golang.org/x/net v0.31.0 // indirect
